@@ -225,4 +225,53 @@ two groups requested: the original final test accepts one group, the corrected t
 example : sweepGroups ((1 : ℚ) / 20) [5, 5, 5, 5] = [[5, 5, 5, 5]] := by
   simp [sweepGroups, startsNew]; norm_num
 
+/-! ### the flows that are used (input of the orificed sweep)
+
+`writeFlows` writes the distributed flows by assembly id.  With distinct ids inside the core every grouped position carries exactly
+the flow distributed to it and no other position is touched; pairing the flows with the assigned positions in order (a seeded
+change) provably does not, as soon as an assembly that is not grouped sits before a grouped one. -/
+
+theorem writeFlows_length {A : Type} (pos : List (Option A)) (prs : List (Nat × A)) :
+    (writeFlows pos prs).length = pos.length := by
+  induction prs generalizing pos with
+  | nil => rfl
+  | cons p t ih => obtain ⟨i, m⟩ := p; simp [writeFlows, ih]
+
+theorem writeFlows_untouched {A : Type} (pos : List (Option A)) (prs : List (Nat × A)) (j : Nat)
+    (hj : ∀ p ∈ prs, p.1 ≠ j) : (writeFlows pos prs)[j]? = pos[j]? := by
+  induction prs generalizing pos with
+  | nil => rfl
+  | cons p t ih =>
+    obtain ⟨i, m⟩ := p
+    have hij : i ≠ j := hj (i, m) List.mem_cons_self
+    rw [writeFlows, ih _ (fun q hq => hj q (List.mem_cons_of_mem _ hq))]
+    exact List.getElem?_set_ne hij
+
+/-- every grouped assembly gets the flow distributed to it (ids distinct and inside the core) -/
+theorem c20_flows_written {A : Type} (pos : List (Option A)) (prs : List (Nat × A))
+    (hnd : (prs.map Prod.fst).Nodup) (hin : ∀ p ∈ prs, p.1 < pos.length) :
+    ∀ p ∈ prs, (writeFlows pos prs)[p.1]? = some (some p.2) := by
+  induction prs generalizing pos with
+  | nil => intro p hp; simp at hp
+  | cons q t ih =>
+    obtain ⟨i, m⟩ := q
+    simp only [List.map_cons, List.nodup_cons] at hnd
+    intro p hp
+    rw [writeFlows]
+    rcases List.mem_cons.mp hp with rfl | hp'
+    · -- written first, not touched by the rest
+      rw [writeFlows_untouched _ t i (fun r hr hri => hnd.1 (by rw [← hri]; exact List.mem_map_of_mem hr))]
+      simp [List.getElem?_set_self (hin (i, m) List.mem_cons_self)]
+    · exact ih (pos.set i (some m)) hnd.2 (fun r hr => by simpa using hin r (List.mem_cons_of_mem _ hr)) p hp'
+
+/-- a position that is not grouped keeps what it had (empty stays empty) -/
+theorem c20_flows_others_untouched {A : Type} (pos : List (Option A)) (prs : List (Nat × A)) (j : Nat)
+    (hj : j ∉ prs.map Prod.fst) : (writeFlows pos prs)[j]? = pos[j]? :=
+  writeFlows_untouched pos prs j (fun p hp hpj => hj (by rw [← hpj]; exact List.mem_map_of_mem hp))
+
+/-- counter-model of the seeded change: position 0 holds an assembly that is not grouped, position 1 the only grouped one -/
+theorem c20_flows_by_order_counter :
+    (writeFlows [some (0 : Nat), some 0] [(1, 7)])[1]? = some (some 7)
+    ∧ (writeFlowsByOrder [some (0 : Nat), some 0] [7])[1]? = some (some 0) := by decide
+
 end Dassh.Props.C20
